@@ -100,6 +100,7 @@ func randomCfg(r *rand.Rand, must ...string) world.Cfg {
 	}
 	c.StoreTZ = []int{0, 0, 13 * 3600, -11 * 3600, 5*3600 + 1800}[r.Intn(5)]
 	c.NilSessionState = r.Intn(3) == 0
+	c.ExpireSetupFirst = r.Intn(2) == 0
 	c.ClockZone = []int{0, 0, -8 * 3600, 9*3600 + 1800}[r.Intn(4)]
 	c.ZoneLessStore = r.Intn(3) == 0
 	if c.ZoneLessStore {
